@@ -78,7 +78,7 @@ def build_harness(race=False):
     return binp
 
 
-def harness(args, timeout=600, race=False, env_extra=None, ok_codes=(0,)):
+def harness(args, timeout=600, race=False, env_extra=None, ok_codes=(0,), allow_crash=False):
     """Run the harness; it writes a JSON result document to the path given with -out."""
     binp = build_harness(race)
     os.makedirs(os.path.join(OUT, "res"), exist_ok=True)
@@ -100,6 +100,8 @@ def harness(args, timeout=600, race=False, env_extra=None, ok_codes=(0,)):
             os.unlink(resp)
         except OSError:
             pass
+    if allow_crash and (doc is None or rc not in ok_codes):
+        return {"crashed": True, "rc": rc, "_stdout": out, "_wall": wall}
     if doc is None or rc not in ok_codes:
         raise Inconclusive("harness %s failed rc=%s\n%s" % (args[:3], rc, out[-6000:]))
     doc["_stdout"] = out
